@@ -10,17 +10,30 @@ import "sync"
 // scheduler's hand-offs, see vsched/race_on.go).
 type hbMutex struct{ mu sync.Mutex }
 
+//go:norace
 func (h *hbMutex) acquire() { h.mu.Lock() }
+
+//go:norace
 func (h *hbMutex) release() { h.mu.Unlock() }
 
 type hbRWMutex struct{ mu sync.RWMutex }
 
-func (h *hbRWMutex) lock()    { h.mu.Lock() }
-func (h *hbRWMutex) unlock()  { h.mu.Unlock() }
-func (h *hbRWMutex) rlock()   { h.mu.RLock() }
+//go:norace
+func (h *hbRWMutex) lock() { h.mu.Lock() }
+
+//go:norace
+func (h *hbRWMutex) unlock() { h.mu.Unlock() }
+
+//go:norace
+func (h *hbRWMutex) rlock() { h.mu.RLock() }
+
+//go:norace
 func (h *hbRWMutex) runlock() { h.mu.RUnlock() }
 
 type hbWaitGroup struct{ wg sync.WaitGroup }
 
+//go:norace
 func (h *hbWaitGroup) add(d int) { h.wg.Add(d) }
-func (h *hbWaitGroup) wait()     { h.wg.Wait() }
+
+//go:norace
+func (h *hbWaitGroup) wait() { h.wg.Wait() }
